@@ -43,8 +43,8 @@ ASSUMPTIONS = ['secret indices are in range (documented precondition: 0 <= i < l
                'raise ValueError as documented (checked on the synchronous single-party runtime only: with several parties '
                'the exception surfaces inside a task)',
                'find() of an absent value gives -1 (docstring); in SecFld(11) this is the field element -1',
-               'exactness of the underlying secure arithmetic under extreme masks is C01; here masks are seeded, and '
-               'all-zero / all-max for the operations that draw randomness',
+               'exactness of the underlying secure arithmetic under extreme masks is C01; here masks are seeded, plus the all-zero / '
+               'all-max patterns for the SecInt operations that draw randomness on lists of length <= 3 (thorough: <= 4)',
                'multi-party runs use the default eager schedule']
 MANIFEST = dict(
     level=LEVEL,
